@@ -30,9 +30,17 @@ pub const SIG_OPENING_FILL: &str = "opening-fill-unrealised-not-minus-entry-fee"
 pub struct PnlCase {
     pub n_instruments: u8,
     pub events: Vec<EvSpec>,
+    /// Some(s): the first instrument is a perpetual (settlement selector s, which also fixes its
+    /// contract size: 1, 0.01 or 10) instead of spot
+    #[serde(default)]
+    pub perpetual: Option<u8>,
 }
 
 pub struct UnrealisedPnl;
+
+fn world_contract_size_differs(settle: u8) -> bool {
+    crate::props::world::contract_size_of(settle) != Decimal::ONE
+}
 
 /// Documented estimate: price move on the open quantity minus pro-rata estimated exit fees.
 fn estimate(p: &Position<QuoteAsset, InstrumentIndex>, price: Decimal) -> Decimal {
@@ -68,8 +76,9 @@ impl Check for UnrealisedPnl {
                 ],
                 1..max,
             ),
+            prop::option::weighted(0.4, 0u8..7),
         )
-            .prop_map(|(n_instruments, events)| PnlCase { n_instruments, events })
+            .prop_map(|(n_instruments, events, perpetual)| PnlCase { n_instruments, events, perpetual })
             .boxed()
     }
 
@@ -81,7 +90,7 @@ impl Check for UnrealisedPnl {
         let n = case.n_instruments.clamp(1, 3);
         // instruments on two exchanges so that the engine-level routing by index is exercised
         let defs: Vec<InstrumentDef> = (0..n)
-            .map(|i| InstrumentDef { exchange: if i == 2 { 0 } else { 1 }, base: i, quote: 3, kind: KindDef::Spot, unit: UnitDef::NoSpec })
+            .map(|i| InstrumentDef { exchange: if i == 2 { 0 } else { 1 }, base: i, quote: 3, kind: match (i, case.perpetual) { (0, Some(settle)) => KindDef::Perpetual { settle }, _ => KindDef::Spot }, unit: UnitDef::NoSpec })
             .collect();
         let mut rig = Rig::new(&defs, &[Link::Healthy; 4], TradingState::Disabled);
         let indexed = rig.indexed.clone();
@@ -171,6 +180,7 @@ impl Check for UnrealisedPnl {
         rep.class_if(opening_with_fee > 0, "opening_fill_with_fee");
         rep.class_if(fills_on_position > 0, "fill_on_existing_position");
         rep.class_if(n >= 2, "several_instruments");
+        rep.class_if(case.perpetual.is_some_and(|s| world_contract_size_differs(s)), "perpetual_with_contract_size_not_one");
         rep.class_if(case.events.iter().any(|e| matches!(e, EvSpec::Fill { fee_bp, .. } if fee_bp & 0x8000 != 0)), "fill_with_maker_rebate");
         rep.class_if(case.events.iter().any(|e| matches!(e, EvSpec::MarketTrade { price_q: 0, .. })), "public_trade_at_price_zero");
         rep.nontrivial = tracked_move;
@@ -179,7 +189,7 @@ impl Check for UnrealisedPnl {
 }
 
 pub fn run(ctx: &mut Ctx) {
-    ctx.rule = "unrealised_pnl: 1..3 instruments on two exchanges; vec(event,1..30|60) of fills (size 0.5/1/2/random, fee 0, 1..99 bp, or a maker rebate of 1..99 bp) interleaved with public trades (1 in 30 at price zero) and L1 updates (15% missing side, 20% stale timestamps) through Engine::process. non-trivial = some instrument with an open position saw >= 2 effective priced market events with different prices after its last fill; distinct by hash of the case.".into();
+    ctx.rule = "unrealised_pnl: 1..3 instruments on two exchanges (in 40% of the cases the first one a perpetual with contract size 1, 0.01 or 10); vec(event,1..30|60) of fills (size 0.5/1/2/random, fee 0, 1..99 bp, or a maker rebate of 1..99 bp) interleaved with public trades (1 in 30 at price zero) and L1 updates (15% missing side, 20% stale timestamps) through Engine::process. non-trivial = some instrument with an open position saw >= 2 effective priced market events with different prices after its last fill; distinct by hash of the case.".into();
     ctx.assumptions = vec![
         "the instrument's current price is InstrumentDataState::price(); a market event that leaves the instrument's data unchanged (stale timestamp) may leave the estimate unchanged".into(),
         "estimate formula from the docs: sign*q*(price - avg_entry) - (q/q_max)*fees_enter; tolerance 1e-18 relative".into(),
